@@ -424,3 +424,7 @@ mod tests {
         }
     }
 }
+
+#[cfg(any(kani, verif_replay))]
+#[path = "/verif/harness/noise_agent_proofs.rs"]
+pub(crate) mod verif_proofs;
